@@ -5,7 +5,7 @@ package influxql
 // inserting a comment flanked by whitespace there, never changes the AST.
 // Bound: the statements listed below (one or more per statement kind and per
 // place where the parser looks at raw runes or raw tokens) x every gap that
-// contains whitespace x 9 replacements (incl. a 40-space run and a comment containing a comment opener), and every ordered pair of corpus statements in one query. Labelled bounded; never counted as proved.
+// contains whitespace x 11 replacements (incl. a 40-space run and a comment containing a comment opener), and every ordered pair of corpus statements in one query. Labelled bounded; never counted as proved.
 
 import (
 	"fmt"
@@ -50,7 +50,7 @@ func c16gaps(s string) [][2]int {
 }
 
 func TestZZBoundedC16(t *testing.T) {
-	fmt.Println("BOUNDED-BOUND: 49 statements covering every statement family and every raw-rune / raw-token site x every whitespace gap x {tab, LF, CR, CRLF, two spaces, block comment, line comment, 40 spaces, comment containing a comment opener}; every ordered pair of statements in one query, each compared with its parse alone")
+	fmt.Println("BOUNDED-BOUND: 49 statements covering every statement family and every raw-rune / raw-token site x every whitespace gap x {tab, LF, CR, CRLF, two spaces, block comment, line comment, 40 spaces, comment containing a comment opener, line comment ended by a lone CR, comment whose text starts with a slash}; one query of 300 statements; every ordered pair of statements in one query, each compared with its parse alone")
 	corpus := []string{
 		`SELECT mean(value) FROM cpu WHERE host = 'a' AND time > now() - 1h GROUP BY time(5m), host fill(none) ORDER BY time DESC LIMIT 5 OFFSET 2 SLIMIT 3 SOFFSET 1 tz('UTC')`,
 		`SELECT value INTO db1.rp1.out FROM db0.rp0.cpu WHERE value > 1.5`,
@@ -95,7 +95,8 @@ func TestZZBoundedC16(t *testing.T) {
 		`SELECT value FROM cpu ; SHOW DATABASES ; ; DROP SHARD 1 ;`,
 	}
 	repl := map[string]string{"tab": "\t", "lf": "\n", "cr": "\r", "crlf": "\r\n", "two-spaces": "  ", "block-comment": " /* c */ ", "line-comment": " -- c\n",
-		"long-spaces": strings.Repeat(" ", 40), "comment-with-opener": " /* a /* b */ "}
+		"long-spaces": strings.Repeat(" ", 40), "comment-with-opener": " /* a /* b */ ",
+		"line-comment-cr": " -- c\r", "comment-slash-first": " /*/ c */ "}
 	total, accepted := 0, 0
 	fails := map[string]int{}
 	first := map[string]string{}
@@ -129,7 +130,7 @@ func TestZZBoundedC16(t *testing.T) {
 		}
 		for _, g := range c16gaps(base) {
 			for name, r := range repl {
-				if name == "comment-with-opener" {
+				if name == "comment-with-opener" || name == "comment-slash-first" || name == "line-comment-cr" {
 					// only where a plain comment is accepted (the raw-rune look-ahead sites are finding F-C16-1)
 					if _, err := ParseQuery(base[:g[0]] + repl["block-comment"] + base[g[1]:]); err != nil {
 						continue
@@ -201,6 +202,34 @@ func TestZZBoundedC16(t *testing.T) {
 			fails[key]++
 			if first[key] == "" {
 				first[key] = fmt.Sprintf("%q", a+" ; "+b)
+			}
+		}
+	}
+	// a long query: parser state carried from statement to statement must not build up
+	{
+		one := "SELECT mean(value) FROM cpu WHERE time > now() - 5m AND host = f() GROUP BY time(10s)"
+		alone, _ := ParseQuery(one)
+		total++
+		long, err := ParseQuery(strings.Repeat(one+" ; ", 300))
+		switch {
+		case err != nil:
+			fails["long-query:rejected"]++
+			first["long-query:rejected"] = err.Error()
+		case len(long.Statements) != 300:
+			fails["long-query:statement-count"]++
+			first["long-query:statement-count"] = fmt.Sprint(len(long.Statements))
+		default:
+			good := true
+			for i, st := range long.Statements {
+				if st.String() != alone.Statements[0].String() {
+					good = false
+					fails["long-query:statement-differs-from-alone"]++
+					first["long-query:statement-differs-from-alone"] = fmt.Sprintf("statement %d: %s", i, st.String())
+					break
+				}
+			}
+			if good {
+				accepted++
 			}
 		}
 	}
